@@ -1,0 +1,100 @@
+// Copyright 1999-2020 Alibaba Group Holding Ltd.
+//
+// Licensed under the Apache License, Version 2.0 (the "License");
+// you may not use this file except in compliance with the License.
+// You may obtain a copy of the License at
+//
+//     http://www.apache.org/licenses/LICENSE-2.0
+//
+// Unless required by applicable law or agreed to in writing, software
+// distributed under the License is distributed on an "AS IS" BASIS,
+// WITHOUT WARRANTIES OR CONDITIONS OF ANY KIND, either express or implied.
+// See the License for the specific language governing permissions and
+// limitations under the License.
+
+package hotspot
+
+import (
+	"reflect"
+	"sync"
+
+	"github.com/alibaba/sentinel-golang/core/base"
+)
+
+// rulesInForce maps a controller that was kept across a load - its rule came again with the same fields - to
+// the rule object of the latest such load. The controller goes on holding the object it was built with
+// (BoundRule()), which can differ from the latest one in the ID and in fields that do not matter to it;
+// the rule manager, the getters and the block errors speak of the rule as it was last loaded. The table
+// belongs to the rule manager, so it covers controllers of user-registered control behaviours as well (as long as
+// they are pointers, which is what can serve as a key).
+var (
+	rulesInForceMux sync.Mutex
+	rulesInForce    = make(map[TrafficShapingController]*Rule)
+)
+
+func keyable(tc TrafficShapingController) bool {
+	return tc != nil && reflect.TypeOf(tc).Kind() == reflect.Ptr
+}
+
+// ruleInForceOf returns the rule a controller stands for, as it was last loaded.
+func ruleInForceOf(tc TrafficShapingController) *Rule {
+	if !keyable(tc) {
+		return tc.BoundRule()
+	}
+	rulesInForceMux.Lock()
+	defer rulesInForceMux.Unlock()
+	if r, ok := rulesInForce[tc]; ok {
+		return r
+	}
+	return tc.BoundRule()
+}
+
+func setRuleInForce(tc TrafficShapingController, rule *Rule) {
+	if !keyable(tc) {
+		return
+	}
+	rulesInForceMux.Lock()
+	defer rulesInForceMux.Unlock()
+	if rule == tc.BoundRule() {
+		delete(rulesInForce, tc)
+	} else {
+		rulesInForce[tc] = rule
+	}
+}
+
+// forgetRulesInForce drops the entries of controllers that are no longer in use.
+func forgetRulesInForce(tcs []TrafficShapingController, except []TrafficShapingController) {
+	rulesInForceMux.Lock()
+	defer rulesInForceMux.Unlock()
+	if len(rulesInForce) == 0 {
+		return
+	}
+	for _, tc := range tcs {
+		if !keyable(tc) {
+			continue
+		}
+		kept := false
+		for _, e := range except {
+			if e == tc {
+				kept = true
+				break
+			}
+		}
+		if !kept {
+			delete(rulesInForce, tc)
+		}
+	}
+}
+
+// blockedByRuleInForce makes the block error name the rule as it was last loaded.
+func blockedByRuleInForce(tc TrafficShapingController, r *base.TokenResult) *base.TokenResult {
+	be := r.BlockError()
+	if be == nil {
+		return r
+	}
+	inForce := ruleInForceOf(tc)
+	if inForce == tc.BoundRule() {
+		return r
+	}
+	return base.NewTokenResultBlockedWithCause(be.BlockType(), be.BlockMsg(), inForce, be.TriggeredValue())
+}
